@@ -20,16 +20,16 @@ import (
 )
 
 type c06Case struct {
-	PIms        int      `json:"ping_interval_ms"`
-	PTms        int      `json:"ping_timeout_ms"`
-	MaxPayload  int64    `json:"max_payload"`
-	Transports  []string `json:"transports"`
-	AllowUpg    bool     `json:"allow_upgrades"`
-	AllowEIO3   bool     `json:"allow_eio3"`
-	Initial     string   `json:"initial_packet"` // "" | strbuf | strreader | bytesbuf | bytesreader (*bytes.Reader) | bytesbuffer (*bytes.Buffer)
-	Cookie      bool     `json:"cookie"`
-	Sessions    []c06Sess `json:"sessions"`
-	Seed        string   `json:"seed"`
+	PIms       int       `json:"ping_interval_ms"`
+	PTms       int       `json:"ping_timeout_ms"`
+	MaxPayload int64     `json:"max_payload"`
+	Transports []string  `json:"transports"`
+	AllowUpg   bool      `json:"allow_upgrades"`
+	AllowEIO3  bool      `json:"allow_eio3"`
+	Initial    string    `json:"initial_packet"` // "" | strbuf | strreader | bytesbuf | bytesreader (*bytes.Reader) | bytesbuffer (*bytes.Buffer)
+	Cookie     bool      `json:"cookie"`
+	Sessions   []c06Sess `json:"sessions"`
+	Seed       string    `json:"seed"`
 }
 
 type c06Sess struct {
